@@ -39,7 +39,9 @@ Matches(i, key) == i.k = key.k /\ (i.id = NoId \/ i.id = key.id)
 QCs == {c \in DOMAIN cfg : cfg[c].fl = "q"}
 
 Cfg(e) == /\ cfg' = Put(cfg, e.c, [fl |-> e.fl, ins |-> {[k |-> i.k, id |-> i.id, ik |-> i.ik] : i \in ToSet(e.ins)}])
-          /\ robs' = Put(robs, e.c, Empty) /\ qobs' = Put(qobs, e.c, Empty) /\ need' = Put(need, e.c, {})
+          /\ robs' = IF e.c \in DOMAIN robs THEN robs ELSE Put(robs, e.c, Empty)     \* a repeated cfg line = UpdateInputs
+          /\ qobs' = IF e.c \in DOMAIN qobs THEN qobs ELSE Put(qobs, e.c, Empty)
+          /\ need' = IF e.c \in DOMAIN need THEN need ELSE Put(need, e.c, {})
           /\ UNCHANGED <<store, lastRead>> /\ Keep
 
 Write(e) ==
